@@ -113,6 +113,10 @@ class C16(SCheck):
             flags["glob"] = True
             flags["bad_glob"] = True
             srcs.insert(pos, r.choice(["a[", "***", "a/[x"]))
+        if cls in ("missing-source", "missing-source-glob", "dir-without-r", "bad-glob", "only-dest") and dest is not None and r.random() < 0.35:
+            # the destination is given with --target-directory and does not exist (not even its parent): nothing may be created for it
+            flags["target_dir"] = True
+            dest = r.choice(["newdir", "newdir/out", "dst/deeper/out"])
         inv = gen.mk_inv(srcs, dest, driver=driver, workers=r.choice([1, 4]), block_size=r.choice([4096, 65536]), **flags)
         return {"setup": ops, "steps": [{"inv": inv}], "cls": cls, "dstate": dstate, "pos": pos}
 
